@@ -223,6 +223,17 @@ class _Guarded:
                 return self.fn(task)
         except LibraryHang as ex:
             raise LibraryHangError(str(ex))
+        except (KeyboardInterrupt, SystemExit, GeneratorExit):
+            raise
+        except Exception:
+            raise
+        except BaseException as ex:
+            # a non-Exception that came out of the library (or out of a
+            # handler through the library) would kill the pool worker and
+            # leave the parent waiting for ever: hand it over as an error
+            import traceback
+            raise RuntimeError("non-Exception %s escaped into the check:\n%s"
+                               % (type(ex).__name__, traceback.format_exc()))
 
 
 # ---- worker pool ---------------------------------------------------------
